@@ -2,7 +2,11 @@
 global TimerQueue, over mock connections and a mock provider) on an operation script.
 
 Script: {'min','max','maxq','mode': 'step'|'hub', 'ops': [...]} with ops
-  ['req', ok, has_timer]   a new call (ids 0,1,2,.. in arrival order); `ok`: a connection created for it opens
+  ['req', ok, has_timer, lat]  a new call (ids 0,1,2,.. in arrival order), issued from its own greenlet when `lat`;
+                           if a connection is created for it: `lat` — its Open() stays pending (the greenlet blocks
+                           inside _Get) until an `opened` op; otherwise `ok` — whether it opens (at once)
+  ['opened', sid, ok]      the pending Open() of connection sid completes (ok / fails); the blocked greenlet resumes
+  ['openedany', k, ok]     same, for the k-th (mod n) of the connections that are currently being opened
   ['resp', c]              the connection serving call c posts a reply into c's sink stack
   ['to', c]                virtual time advances to c's deadline: the real timer fires and drains c's stack
   ['die', sid]             connection sid dies (state Closed, fault signal)
@@ -22,20 +26,23 @@ from lib import vfmt
 
 PROPERTY = 'C07'
 COMPONENT = 'watermark'
-QUICK = dict(gen=1500, exhaustive_len=6)
-THOROUGH = dict(gen=50000, exhaustive_len=7)
+QUICK = dict(gen=1500, exhaustive_len=5)
+THOROUGH = dict(gen=50000, exhaustive_len=6)
 INF = 2147483647
 
 TRUSTED = ['gevent starts spawned greenlets in spawn order (step mode replaces gevent.spawn inside '
            'scales.pool.watermark by a FIFO the harness drains one task at a time; hub mode uses the real hub)',
-           'mock connections open synchronously (Open() returns a completed result), so _Get does not yield']
+           'mock connections: Open() either returns a completed result or a pending AsyncResult that the harness '
+           'completes later (requests are then issued from their own greenlets, which block inside _Get)']
 ASSUMPTIONS = ['Open() of the pool is only exercised with a connection that opens (failing first open: C09/F5)',
                'FIFO "no overtaking by a fresh request" is only claimed for a pool that was never closed; '
                'hand-off order, exclusivity, bounds and size accounting are claimed for every history',
-               'connections do not answer synchronously inside AsyncProcessRequest']
+               'connections do not answer synchronously inside AsyncProcessRequest',
+               'Open() of the pool itself (_OpenImpl) is exercised with connections whose Open() completes at once']
 RULE = ('scripts from the seeded generator plus every op sequence up to a small length for (1,1,1),(0,2,1),(1,2,2); '
         'distinct = distinct (cfg, op list); non-trivial = reaches a queued waiter being skipped, a dead connection '
-        'discarded from the cache or found on release, a double release before hand-off, MaxWaiters or Close')
+        'discarded from the cache or found on release, a double release before hand-off, MaxWaiters, Close, an arrival '
+        'while another caller is blocked in a connect, a failed connect, or a timer firing during a connect')
 
 
 # ------------------------------------------------------------------ generation
@@ -49,23 +56,30 @@ def gen_script(rng, tier):
     p_die = rng.choice([0.0, 0.05, 0.15])
     p_close = rng.choice([0.0, 0.0, 0.03])
     p_fail_open = rng.choice([0.0, 0.0, 0.1])
+    p_lat = rng.choice([0.0, 0.3, 0.6, 1.0])     # connects that take time
     ops = []
     if rng.random() < 0.7:
         ops.append(['open', True])
-    ncalls, nsinks_guess = 0, 0
+    ncalls, nsinks_guess, nlat = 0, 0, 0
     live = []          # call ids believed incomplete
     timers = {}
     for _ in range(n):
         r = rng.random()
-        if r < 0.38 or not live:
+        if r < 0.34 or not live:
             has_t = rng.random() < p_to
-            ops.append(['req', rng.random() >= p_fail_open, has_t])
-            if has_t:
-                timers[ncalls] = True
-            live.append(ncalls)
-            ncalls += 1
-            nsinks_guess += 1
-        elif r < 0.62:
+            lat = rng.random() < p_lat
+            burst = 1 if rng.random() < 0.75 else rng.randrange(2, 4)   # arrivals during one connect
+            for _b in range(burst):
+                ops.append(['req', rng.random() >= p_fail_open, has_t, lat])
+                if has_t:
+                    timers[ncalls] = True
+                live.append(ncalls)
+                ncalls += 1
+                nsinks_guess += 1
+                nlat += 1 if lat else 0
+        elif r < 0.44 and nlat:
+            ops.append(['openedany', rng.randrange(0, 3), rng.random() >= p_fail_open])
+        elif r < 0.64:
             # prefer old calls (they hold connections), sometimes a burst of releases before any run
             k = 1 if rng.random() < 0.7 else rng.randrange(2, 4)
             for _k in range(k):
@@ -73,12 +87,13 @@ def gen_script(rng, tier):
                     break
                 c = live.pop(0) if rng.random() < 0.6 else live.pop(rng.randrange(len(live)))
                 ops.append(['resp', c])
-        elif r < 0.62 + 0.12 * (1 if p_to else 0):
+        elif r < 0.64 + 0.12 * (1 if p_to else 0):
             cands = [c for c in live if c in timers]
             if cands:
                 c = rng.choice(cands)
-                live.remove(c)
                 del timers[c]
+                if rng.random() < 0.8:
+                    live.remove(c)      # otherwise: it may have been connecting and still needs an answer
                 ops.append(['to', c])
         elif r < 0.86:
             ops.append(['run'])
@@ -94,32 +109,36 @@ def gen_script(rng, tier):
             else:
                 ops.append(['run'])
     if rng.random() < 0.7:   # let the traffic stop
-        for c in list(live):
-            ops.append(['resp', c])
-            ops.append(['run'])
-        for c in list(live):
-            ops.append(['resp', c])
-            ops.append(['run'])
+        for _k in range(min(nlat, 6)):
+            ops.append(['openedany', 0, True])
+        for _rep in range(2):
+            for c in range(ncalls) if nlat else list(live):
+                ops.append(['resp', c])
+                ops.append(['run'])
         ops += [['run'], ['run']]
     return {'min': mn, 'max': mx, 'maxq': mq, 'mode': mode, 'ops': ops}
 
 
 def exhaustive(tier, shard, shards):
     """all sensible op sequences up to length L over a small alphabet, for three configurations
-    (sensible: a call is only answered / timed out after it was requested, a timer fires once)"""
+    (sensible: a call is only answered / timed out after it was requested, a timer fires once, a connect
+    only ends if one may be pending)"""
     L = (THOROUGH if tier == 'thorough' else QUICK)['exhaustive_len']
-    alphabet = [['req', True, True], ['resp', 0], ['resp', 1], ['to', 1], ['to', 2], ['run'], ['die', 0],
-                ['resp', 2], ['close']]
+    alphabet = [['req', True, True, False], ['req', True, True, True], ['resp', 0], ['resp', 1], ['to', 1],
+                ['to', 0], ['run'], ['die', 0], ['resp', 2], ['close'], ['openedany', 0, True],
+                ['openedany', 0, False]]
     k = 0
 
     def sensible(seq):
-        nreq, timed = 0, set()
+        nreq, timed, nlat = 0, set(), 0
         for x in seq:
             o = alphabet[x]
             if o[0] == 'req':
                 nreq += 1
                 if nreq > 4:
                     return False
+                if o[3]:
+                    nlat += 1
             elif o[0] in ('resp', 'to'):
                 if o[1] >= nreq:
                     return False
@@ -129,12 +148,16 @@ def exhaustive(tier, shard, shards):
                     timed.add(o[1])
             elif o[0] == 'die' and nreq == 0:
                 return False
+            elif o[0] == 'openedany':
+                if nlat == 0:
+                    return False
+                nlat -= 1
         return True
 
     for cfg in ((1, 1, 1), (0, 2, 1), (1, 2, 2)):
         for n in range(1, L + 1):
             for seq in itertools.product(range(len(alphabet)), repeat=n):
-                if seq[0] != 0 or not sensible(seq):
+                if seq[0] > 1 or not sensible(seq):
                     continue
                 k += 1
                 if k % shards != shard:
@@ -165,6 +188,12 @@ def shrink(script):
         s = dict(script)
         s['mode'] = 'step'
         yield s
+    for i, o in enumerate(ops):
+        if o[0] == 'req' and len(o) > 3 and o[3]:
+            s = dict(script)
+            s['ops'] = [list(p) for p in ops]
+            s['ops'][i][3] = False
+            yield s
     for key, lo in (('min', 0), ('max', 1), ('maxq', 0)):
         if script[key] > lo and script[key] != INF:
             s = dict(script)
@@ -199,25 +228,31 @@ def run_script(script):
     ops = script['ops']
     steps, tags = [], set()
     evs = []                 # events of the operation in progress
-    st = {'pending_op': None, 'next_ok': True}
+    st = {'pending_op': None, 'next_ok': True, 'next_lat': False, 'created': None}
+    connecting = []          # sink ids whose Open() is pending, in creation order
     sinks = []               # HSink by id
     calls = []               # dict(stack, term, msg, sink) by id
     stack_ids = {}           # id(stack) -> call id
     tasks = []               # deferred _ProcessQueue: list of sink ids (FIFO)
 
     class HSink(ClientMessageSink):
-        def __init__(self, sid, ok):
+        def __init__(self, sid, ok, lat):
             super(HSink, self).__init__()
             self.sid = sid
-            self._st = ChannelState.Open if ok else ChannelState.Closed
             self.endpoint = None
+            if lat:      # the connect takes time: Idle until the harness completes `open_ar`
+                self._st = ChannelState.Idle
+                self.open_ar = AsyncResult()
+            else:
+                self._st = ChannelState.Open if ok else ChannelState.Closed
+                self.open_ar = None
 
         @property
         def state(self):
             return self._st
 
         def Open(self):
-            return AsyncResult.Complete()
+            return self.open_ar if self.open_ar is not None else AsyncResult.Complete()
 
         def Close(self):
             evs.append(['closed', self.sid])
@@ -236,9 +271,10 @@ def run_script(script):
         Role = 'transport'
 
         def CreateSink(self, properties):
-            s = HSink(len(sinks), st['next_ok'])
+            s = HSink(len(sinks), st['next_ok'], st['next_lat'])
             sinks.append(s)
-            evs.append(['created', s.sid, bool(st['next_ok'])])
+            evs.append(['created', s.sid, s.state <= ChannelState.Open])
+            st['created'] = s.sid
             return s
 
         @property
@@ -362,17 +398,65 @@ def run_script(script):
                     msg.properties[Deadline.KEY] = base_t + (to_index[c] + 1) * SP
                 calls.append({'stack': stack, 'sink': None, 'done': False, 'timer': has_timer})
                 stack_ids[id(stack)] = c
-                st['next_ok'] = bool(o[1])
+                lat = bool(o[3]) if len(o) > 3 else False
+                st['next_ok'], st['next_lat'], st['created'] = bool(o[1]), lat, None
                 nw = len(pool._waiters)
-                try:
-                    top.AsyncProcessRequest(stack, msg, None, {})
-                except Exception as ex:
-                    evs.append(['raised', type(ex).__name__])
-                    tags.add('raised')
+
+                def do_request(stack=stack, msg=msg):
+                    try:
+                        top.AsyncProcessRequest(stack, msg, None, {})
+                    except Exception as ex:
+                        evs.append(['raised', type(ex).__name__])
+                        tags.add('raised')
+                if lat:
+                    # the caller's own greenlet: it may block inside _Get
+                    hub_turns()
+                    nw = len(pool._waiters)
+                    if connecting:
+                        tags.add('arrival-during-connect')
+                    st['pending_op'] = vfmt(['request', bool(o[1]), lat])[1:-1]
+                    g = gevent.spawn(do_request)
+                    rt.drain()
+                    if not g.dead:
+                        sid = st['created']
+                        if sid is None or sinks[sid].open_ar is None or sinks[sid].open_ar.ready():
+                            raise RuntimeError('request greenlet blocked somewhere else')
+                        evs.append(['connecting', sid, c])
+                        connecting.append(sid)
+                        tags.add('connecting')
+                else:
+                    if connecting:
+                        tags.add('arrival-during-connect')
+                    st['pending_op'] = vfmt(['request', bool(o[1]), lat])[1:-1]
+                    do_request()
+                st['next_lat'] = False
                 if len(pool._waiters) == nw + 1 and pool._waiters[-1][0] is stack:
                     evs.append(['queued', c])
                     tags.add('queued')
-                flush(vfmt(['request', bool(o[1])])[1:-1])
+                flush_pending()
+            elif kind in ('opened', 'openedany'):
+                if kind == 'openedany':
+                    if not connecting:
+                        continue
+                    sid = connecting[o[1] % len(connecting)]
+                else:
+                    sid = o[1]
+                    if sid not in connecting:
+                        continue
+                ok = bool(o[2])
+                hub_turns()
+                connecting.remove(sid)
+                sinks[sid]._st = ChannelState.Open if ok else ChannelState.Closed
+                st['pending_op'] = vfmt(['opened', sid, ok])[1:-1]
+                if ok:
+                    sinks[sid].open_ar.set()
+                else:
+                    sinks[sid].open_ar.set_exception(Exception('connect failed'))
+                    tags.add('connect-failed')
+                rt.drain()
+                flush_pending()
+                if any(cl['sink'] == sid and cl['done'] for cl in calls):
+                    tags.add('zombie')
             elif kind == 'resp':
                 c = o[1]
                 if not (0 <= c < len(calls)) or calls[c]['sink'] is None:
@@ -432,6 +516,10 @@ def run_script(script):
         # let every timer that is still armed fire now, so that nothing of this pool runs during a later script
         st['finished'] = True
         try:
+            for sid in list(connecting):     # let the blocked greenlets finish
+                sinks[sid]._st = ChannelState.Open
+                sinks[sid].open_ar.set()
+            rt.drain()
             rt.advance_to_us(int(round((base_t + (len(ops) + 5) * SP - rt.T0) * 1e6)))
             rt.take_errors()
         finally:
@@ -470,4 +558,5 @@ def run_script(script):
 def nontrivial(case):
     t = set(case.get('tags', []))
     return bool(t & {'skip-candidate', 'waiter-timeout', 'dead-conn', 'handoff-fallthrough', 'maxwaiters',
-                     'pool-closed', 'service-closed', 'late-reply', 'lent-timeout'})
+                     'pool-closed', 'service-closed', 'late-reply', 'lent-timeout', 'arrival-during-connect',
+                     'connect-failed', 'zombie'})
